@@ -22,14 +22,14 @@ Print Assumptions C16_stack_refines_seq.
 (* Out-of-range positions are reported as absent and never fail. *)
 Theorem C16_out_of_range_absent :
   forall (A : Type) (eqA streq : A -> A -> bool) (p : profile) (v : vec A) (i : Z) (a : A),
-    vlen v <= i < two64 - 1 -> vlen v < two64 ->
+    vlen v <= i < two64 -> vlen v < two64 ->
     impl_step eqA streq p v (OGet i) = Ok (v, UOA None) /\
     impl_step eqA streq p v (OCopy i) = Ok (v, UOA None) /\
     impl_step eqA streq p v (OEqualAt i a) = Ok (v, UOB None) /\
     impl_step eqA streq p v (ORemove i) = Ok (v, UUnit) /\
     impl_step eqA streq p v (OYank i) = Ok (v, UUnit) /\
     impl_step eqA streq p v (OShove i) = Ok (v, UUnit) /\
-    impl_step eqA streq p v (OReplace i a) = Ok (v, UOZ (Some (i - vlen v + 1))) /\
+    impl_step eqA streq p v (OReplace i a) = Ok (v, UOZ (Some (Z.min (two64 - 1) (i - vlen v + 1)))) /\
     (vlen v < i -> impl_step eqA streq p v (OPopVec i) = Ok (v, UOL None) /\
                    impl_step eqA streq p v (OCopyVec i) = Ok (v, UOL None)).
 Proof. exact (@out_of_range_absent_lemma). Qed.
@@ -64,6 +64,15 @@ Theorem C16_generic_suite_result_is_spec :
     SL [SZ 0; sx_run_g sx_el sx_listing (spec_run eqA streq (rev init) ops)].
 Proof. exact suite_g_result_is_spec. Qed.
 Print Assumptions C16_generic_suite_result_is_spec.
+
+(* The wire checkers evaluate the specification through [spec_run_c], which replaces a position beyond the
+   end by the length before converting it to a natural number (positions up to 2^64 - 1 are evaluated):
+   it is the specification. *)
+Theorem C16_clamped_evaluation_is_spec :
+  forall (A : Type) (eqA streq : A -> A -> bool) (ops : list (op A)) (t : list A),
+    spec_run_c eqA streq t ops = spec_run eqA streq t ops.
+Proof. intros A eqA streq ops t. exact (spec_run_c_eq eqA streq ops t). Qed.
+Print Assumptions C16_clamped_evaluation_is_spec.
 
 (* Non-vacuity: a concrete non-trivial history meets the hypotheses. *)
 Example C16_nonvacuous :
